@@ -416,7 +416,11 @@ func c04run(w *report.W) {
 		if execs%3 == 0 {
 			pres = "json"
 		}
-		c04doc(w, "gen "+doc.Descr, doc.In, pres, seamBound)
+		sb := seamBound
+		if x.Deviations() >= 3 {
+			sb = -1 // thorough: documents three deviations away get the marker, error-probe and look-alike runs; the seam exploration stays on the <=2-deviation slice
+		}
+		c04doc(w, "gen "+doc.Descr, doc.In, pres, sb)
 		if execs%64 == 0 && w.Expired() {
 			w.Inexhaustive("soft deadline")
 			return false
@@ -425,7 +429,7 @@ func c04run(w *report.W) {
 	}
 	ex.Explore()
 	if w.Shard == 0 {
-		w.P.Bounds["generated_documents"] = fmt.Sprintf("deviations<=%d (%d choice sequences), seam deviations<=%d, maps<=3 entries fully open", devBound, ex.Stats.Executions, seamBound)
+		w.P.Bounds["generated_documents"] = fmt.Sprintf("deviations<=%d (%d choice sequences), seam deviations<=%d on documents <=2 deviations away, maps<=3 entries fully open", devBound, ex.Stats.Executions, seamBound)
 	}
 	// base documents
 	for name, text := range map[string]string{"rich": richDoc, "typical": typicalDoc, "minimal": minimalDoc} {
